@@ -1,11 +1,23 @@
 (** C02 — bound values are exactly a valid derivation of the command line.
-    PARTIAL. Proved: the strings pushed into the user's variables are exactly the bindings recorded
-    along the accepting run found by the search, per variable and in path order; each container is
-    filled from its own bindings only; after options are ended the positional matcher binds tokens
-    verbatim. NOT yet proved: conservation (every occurrence and positional of the line bound exactly
-    once) against the reference reading — covered on every run by the derivation oracle
-    ([RefSem.r_match] with the observed bindings as target). *)
-From MowCli Require Import Base Nfa Matchers Apply Values Flow Cmd ApplyProofs ValueProofs.
+    PROVED on the model for every command whose spec has no "--" atom, on command lines that read
+    cleanly (decidable, [View.view]; see PC10.v), for every options table with no option called "-"
+    or "=":
+    [C02_written_values_exactly]: when the command line is accepted, for each option the values
+    recorded ([values_for (KO o)], which [C02_values_are_the_bindings_of_the_run] shows are exactly
+    what is pushed into the option's variable, in order) are the values of its occurrences in the
+    reading, in command-line order, and the positional bindings, all argument variables together and
+    in the order of the run, are exactly the positional tokens of the reading in order — tokens after
+    the first "--" included, verbatim ([C02_after_cmdline_dd_verbatim]). So nothing is invented,
+    dropped, duplicated or bound to another option, and each positional is bound exactly once, in
+    order. That the distribution over the argument variables is that of a valid derivation of the
+    spec is [PC01.C01_structural_bindings] (the bindings are those of a reading of the spec's regular
+    expression). The proof: every matcher step accounts for the difference between the readings
+    before and after it ([AccountProofs.step_acct], through T4a), hence every accepting run accounts
+    for the whole reading ([C02_every_run_accounts]).
+    NOT covered by the theorem: specs with a "--" atom (crossing the atom turns what is left into
+    positionals), lines with an unreadable or Q1 token; covered on every run by the derivation oracle
+    ([RefSem.r_match] with the observed bindings as target) on the implementation. *)
+From MowCli Require Import Base Nfa Matchers Apply Values Flow Cmd View ApplyProofs ValueProofs ViewProofs ReadProofs AccountProofs.
 
 Section C02.
   Variable parse_float : str -> option str.
@@ -52,7 +64,58 @@ Theorem C02_option_binds_itself :
     ro' = ro /\ (bs = [] /\ rem = args /\ oi_fromenv D o = true \/ exists v, bs = [(KO o, v)]).
 Proof. exact m_opt_shape. Qed.
 
+(** every accepting run of an automaton without a spec-level "--" accounts for the whole reading *)
+Theorem C02_every_run_accounts :
+  forall D, oi_lookup D s_dd = None -> oi_lookup D [c_dash; c_eq] = None ->
+  forall g, (forall s t, ~ In (LDD, t) (edges g s)) ->
+  forall s a ro bs, Acc D g s a ro bs -> forall u, View D a ro u ->
+    (forall x, occs x u = b_occs x bs ++ occs x []) /\ poss u = b_poss bs ++ poss [].
+Proof. exact acc_accounts. Qed.
+
+Theorem C02_written_values_exactly :
+  forall opts args spec i a u bs,
+    compile opts args spec = IOk i ->
+    sane (optinfo_of opts) = true -> no_dd_graph (i_graph i) = true ->
+    view (optinfo_of opts) a = Some u ->
+    fsm_apply (optinfo_of opts) (i_graph i) (i_start i) a = AOk bs ->
+    (forall o, values_for (KO o) bs = occs o u) /\ positional_bindings bs = poss u.
+Proof. exact accepted_values_are_the_written_values. Qed.
+
+(** what follows the first "--" of the command line reads as positionals, verbatim *)
+Theorem C02_after_cmdline_dd_verbatim :
+  forall rest, poss (VDD :: map VP rest) = rest /\ forall o, occs o (VDD :: map VP rest) = [].
+Proof. intros rest. split; [apply poss_map_VP | intros o; apply occs_map_VP]. Qed.
+
+Print Assumptions C02_every_run_accounts.
+Print Assumptions C02_written_values_exactly.
+Print Assumptions C02_after_cmdline_dd_verbatim.
 Print Assumptions C02_values_are_the_bindings_of_the_run.
 Print Assumptions C02_after_dd_verbatim.
 Print Assumptions C02_after_dd_no_option.
 Print Assumptions C02_option_binds_itself.
+
+(** non-vacuity: a repeated multi-valued option around a positional, and tokens after "--" *)
+Definition c02_decls : list decl :=
+  [mkDecl true KStrings (lit "o out") [] [] false (VStrs []) false;
+   mkDecl true KBool (lit "f force") [] [] false (VBool false) false;
+   mkDecl false KStrings (lit "SRC") [] [] false (VStrs []) false].
+
+Example C02_nonvacuous :
+  match declare (fun _ => None) (fun _ => []) c02_decls [] [] with
+  | inl (opts, args) =>
+    match compile opts args (lit "[OPTIONS] SRC...") with
+    | IOk i =>
+      let D := optinfo_of opts in
+      let a := [lit "-fo1"; lit "--out"; lit "2"; lit "x"; lit "--"; lit "-o3"; lit "--"] in
+      match view D a, fsm_apply D (i_graph i) (i_start i) a with
+      | Some u, AOk bs =>
+        sane D && no_dd_graph (i_graph i) &&
+        strs_eqb (occs 0 u) [lit "1"; lit "2"] && strs_eqb (values_for (KO 0) bs) [lit "1"; lit "2"] &&
+        strs_eqb (poss u) [lit "x"; lit "-o3"; lit "--"] && strs_eqb (positional_bindings bs) [lit "x"; lit "-o3"; lit "--"]
+      | _, _ => false
+      end
+    | _ => false
+    end
+  | inr _ => false
+  end = true.
+Proof. vm_compute. reflexivity. Qed.
